@@ -512,7 +512,7 @@ func (g *fsGen) next() string {
 		q := g.related(p)
 		return pre + "link " + h(p) + " " + h(q)
 	case 15:
-		if !g.opts.kernel && !g.opts.orefa && r.Bool(5) {
+		if !g.opts.kernel && r.Bool(5) {
 			return pre + fmt.Sprintf("truncate %s %d", h(g.path()), lib.Pick(r, []int{1 << 31, 1 << 40, 1<<63 - 1}))
 		}
 		return pre + fmt.Sprintf("truncate %s %d", h(g.path()), lib.Pick(r, []int{0, 1, 3, 20, -1}))
@@ -580,7 +580,7 @@ func b2i(b bool) int {
 func (g *fsGen) fileOp() string {
 	r := g.r
 	offs := []int{-2, -1, 0, 1, 2, 3, 5, 9, 10, 11, 13, 30}
-	if !g.opts.kernel && !g.opts.orefa && r.Bool(4) {
+	if !g.opts.kernel && r.Bool(4) {
 		// sizes, offsets and counts far beyond anything that can be served (the kernel accepts sparse files of that size:
 		// not part of the histories compared with it)
 		huge := []int{1 << 31, 1<<31 + 5, 1 << 40, 1 << 62, 1<<63 - 1}
